@@ -276,6 +276,53 @@ func connCase(va variant, k int) (impl string, dur time.Duration) {
 	return impl, time.Since(t0)
 }
 
+// ---------------------------------------------------------------------------------------------- un-framed sasl token
+
+// rawSasl: after a v0 SaslHandshake the authentication tokens travel un-framed ([int32 len][bytes]); the broker's
+// answer is cut after k bytes.
+//
+//	c17raw <answer hex> <k> <next body hex>\t<res> <next>
+func rawSasl(out *bufio.Writer, r *rand.Rand, thorough bool) (n int) {
+	for _, tokLen := range []int{0, 1, 9, 40} {
+		tok := gen.Bytes(r, tokLen)
+		w := &connfake.W{}
+		w.I32(int32(tokLen))
+		w.Raw(tok)
+		for _, k := range cuts(r, len(w.B), true, 0) {
+			c, br := connfake.Start(topic, connfake.VersionTable(map[int16]int16{17: 0}))
+			c.SetDeadline(time.Now().Add(2 * time.Second))
+			cut := k
+			if k >= len(w.B) {
+				cut = -1
+			}
+			br.RawNext(w.B, cut)
+			br.Push(2, connfake.Resp{Body: nextBody, Cut: -1})
+			res, next := "hang", "-"
+			done := make(chan struct{})
+			go func() {
+				defer close(done)
+				defer func() {
+					if p := recover(); p != nil {
+						res = "panic"
+					}
+				}()
+				_, err := kafka.VerifConnOp(c, "saslAuthenticate")
+				res = connfake.Outcome(err)
+				_, err2 := c.ReadLastOffset()
+				next = connfake.Outcome(err2)
+			}()
+			select {
+			case <-done:
+			case <-time.After(5 * time.Second):
+			}
+			go func() { c.Close(); br.Stop() }()
+			fmt.Fprintf(out, "c17raw %s %d %s\t%s %s\n", gen.Hex(w.B), k, gen.Hex(nextBody), res, next)
+			n++
+		}
+	}
+	return
+}
+
 // ---------------------------------------------------------------------------------------------- two callers, one Conn
 
 // twoCallers: A's and B's requests are both written before the broker answers; the two response frames are then
@@ -506,6 +553,8 @@ func main() {
 	}
 	t0 := time.Now()
 	lap := func() string { d := time.Since(t0).Round(time.Millisecond); t0 = time.Now(); return d.String() }
+	nraw := rawSasl(out, r, thorough)
+	fmt.Fprintf(os.Stderr, "c17 driver: %d un-framed sasl token cases\n", nraw)
 	n2, bad2 := twoCallers(out, r, thorough)
 	fmt.Fprintf(os.Stderr, "c17 driver: %d two-caller cases (%d with a hung caller) in %s\n", n2, bad2, lap())
 	nlo := multiPart(out, r, thorough)
